@@ -7,7 +7,7 @@ Anything not listed raises `Unsupported` (undecided, never a violation).
 """
 import ast
 import z3
-from ttvc.symex import (Unsupported, ContractMismatch, NONE, VStr, VOpt, VTuple, VRef, VList, VRec, VSeq, VArr, VFunc,
+from ttvc.symex import (quick_unsat, Unsupported, ContractMismatch, NONE, VStr, VOpt, VTuple, VRef, VList, VRec, VSeq, VArr, VFunc,
                         VOpaque, Z, is_num, is_z3num, is_intsort, is_boolv, module_ast, strcode, Outcome, NORMAL)
 from ttvc import theory as T
 
@@ -337,11 +337,7 @@ def norm_index(ex, st, idx, n, node, what='index', allow_neg=True):
     nonneg = z3.simplify(i >= 0)
     if z3.is_true(nonneg):
         return i
-    s = z3.Solver()
-    s.set('timeout', 1000)
-    s.add(*st.pc)
-    s.add(i < 0)
-    if s.check() == z3.unsat:
+    if quick_unsat(list(ex.axioms) + list(st.pc) + [i < 0]):
         return i
     return z3.If(i >= 0, i, i + Z(n))
 
@@ -908,6 +904,7 @@ def m_floor(ex, st, args, kwargs, node):
     used('np.floor(x) -> integer-valued f with f <= x < f + 1')
     f = ex.fresh_int('floor')
     st.assume(z3.ToReal(f) <= to_real(v), to_real(v) < z3.ToReal(f) + 1)
+    st.ghost.setdefault('floor', []).append((to_real(v), f))
     return z3.ToReal(f)
 
 
@@ -1045,13 +1042,7 @@ def reshape(ex, st, a, shp, order, node):
 
 
 def _same(st, a, b):
-    s = z3.Solver()
-    s.set('timeout', 2000)
-    for ax in T.GROUPS['mulI']:
-        s.add(ax)
-    s.add(*st.pc)
-    s.add(Z(a) != Z(b))
-    return s.check() == z3.unsat
+    return quick_unsat(list(T.GROUPS['mulI']) + list(st.pc) + [Z(a) != Z(b)])
 
 
 @model('teneva._reshape', 'np.reshape')
@@ -1080,3 +1071,40 @@ def m_array(ex, st, args, kwargs, node):
     if isinstance(v, VSeq) and v.tag == 'int':
         return VArr((v.n,), v.arr, 'ivec', dt or 'i')
     raise Unsupported(f'np.array of {type(v).__name__}')
+
+
+@model('np.linalg.qr')
+def m_qr(ex, st, args, kwargs, node):
+    a = st.deref(args[0])
+    mode = kwargs.get('mode')
+    mode = 'reduced' if mode is None else (mode.concrete() if isinstance(mode, VStr) else None)
+    if mode not in ('reduced', 'complete'):
+        raise Unsupported('np.linalg.qr mode other than reduced / complete')
+    if not (isinstance(a, VArr) and a.ndim == 2):
+        raise Unsupported('qr of a non-matrix')
+    used("np.linalg.qr(A) (reduced) -> Q (m x k), R (k x n), k = min(m, n), Q R = A, Q^T Q = I   [A-LAPACK]")
+    m_, n_ = Z(a.shape[0]), Z(a.shape[1])
+    q, r = ex.fresh('Q', T.Mat), ex.fresh('R', T.Mat)
+    k = z3.If(m_ <= n_, m_, n_) if mode == 'reduced' else m_
+    st.assume(T.rows(q) == m_, T.cols(q) == k, T.rows(r) == k, T.cols(r) == n_)
+    if a.t is not None and a.tag == 'mat':
+        st.assume(T.mm(q, r) == a.t, T.mm(T.tr(q), q) == T.eye(T.cols(q)))
+    return VTuple([mk_mat(q), mk_mat(r)])
+
+
+@model('sp.linalg.rq', 'scipy.linalg.rq')
+def m_rq(ex, st, args, kwargs, node):
+    a = st.deref(args[0])
+    mode = kwargs.get('mode')
+    if not isinstance(mode, VStr) or mode.concrete() != 'economic':
+        raise Unsupported('scipy.linalg.rq mode other than economic')
+    if not (isinstance(a, VArr) and a.ndim == 2):
+        raise Unsupported('rq of a non-matrix')
+    used("scipy.linalg.rq(A, mode='economic') -> R (m x k), Q (k x n), k = min(m, n), R Q = A, Q Q^T = I   [A-LAPACK]")
+    m_, n_ = Z(a.shape[0]), Z(a.shape[1])
+    q, r = ex.fresh('Q', T.Mat), ex.fresh('R', T.Mat)
+    k = z3.If(m_ <= n_, m_, n_)
+    st.assume(T.rows(r) == m_, T.cols(r) == k, T.rows(q) == k, T.cols(q) == n_)
+    if a.t is not None and a.tag == 'mat':
+        st.assume(T.mm(r, q) == a.t, T.mm(q, T.tr(q)) == T.eye(T.rows(q)))
+    return VTuple([mk_mat(r), mk_mat(q)])
